@@ -56,7 +56,10 @@ class FitStub:
     def fit(self, X, *a, **k):
         xs = list(np.asarray(X, dtype=object).flat)
         extra = [k[key] for key in sorted(k)]
-        return tuple(uf_of(self.name + '_fit', i, xs + extra) for i in range(self.nparams))
+        out = tuple(uf_of(self.name + '_fit', i, xs + extra) for i in range(self.nparams))
+        if Ctx.cur is not None:
+            Ctx.cur.assume(out[-1].t > 0)        # scipy returns a positive scale
+        return out
 
     def _ev(self, kind, X, *a, **p):
         X = np.asarray(X, dtype=object)
